@@ -60,13 +60,19 @@ def step_assign(obj, n):
 
 # maps that couple the entries of ONE sample and are not column-separable when handed a (dim, Ns) array:
 # applied to the whole array they keep its shape but give different numbers than applied sample by sample
+def f64(f):
+    """a user map written to compute in float64 whatever dtype it is handed (so 'the map of stored sample i' is the
+    float64 map of the stored numbers for every storage dtype of the chain)"""
+    return lambda x: f(np.asarray(x, dtype=np.float64))
+
+
 COUPLED = {
-    "softmax": lambda x: np.exp(x) / np.sum(np.exp(x)),
-    "l2norm": lambda x: x / np.linalg.norm(x),
-    "l1norm": lambda x: x / np.sum(np.abs(x)),
-    "center": lambda x: x - x.mean(),
-    "cumnorm": lambda x: np.cumsum(x, axis=0) / np.sum(x),
-    "sortall": lambda x: np.sort(np.ravel(x)).reshape(np.shape(x)),
+    "softmax": f64(lambda x: np.exp(x) / np.sum(np.exp(x))),
+    "l2norm": f64(lambda x: x / np.linalg.norm(x)),
+    "l1norm": f64(lambda x: x / np.sum(np.abs(x))),
+    "center": f64(lambda x: x - x.mean()),
+    "cumnorm": f64(lambda x: np.cumsum(x, axis=0) / np.sum(x)),
+    "sortall": f64(lambda x: np.sort(np.ravel(x)).reshape(np.shape(x))),
 }
 
 
@@ -144,15 +150,47 @@ def make_geom(cuqi, rng, kind=None):
     if kind.startswith("map"):
         inner = make_geom(cuqi, rng, {"map-aff-cont": "cont1d", "map-aff-img": "imgF", "map-affnoinv": "c2d", "map-sq": "imgC"}[kind])
         if kind == "map-sq":
-            obj = MappedGeometry(inner.obj, map=lambda x: x ** 2)
+            obj = MappedGeometry(inner.obj, map=f64(lambda x: x ** 2))
             return G(obj, "map:1:0:sq:" + inner.spec, kind, inner.par_dim, inner.fun_shape, inner.funvec_dim, has_vec=inner.has_vec, has_inv=False)
-        a, b = rng.choice([2, 4, -2, 0.5]), rng.choice([0, 1, -3])
+        a, b = rng.choice([2, 4, -2, 0.5, 0.5, 1 / 3]), rng.choice([0, 1, -3])
+        if a == 1 / 3:      # x/3: non-integer function values of integer chains, inexact in floating point
+            inner.exact = False
         if kind == "map-affnoinv":
-            obj = MappedGeometry(inner.obj, map=lambda x, a=a, b=b: a * x + b)
-            return G(obj, f"map:{q(a)}:{q(b)}:affnoinv:" + inner.spec, kind, inner.par_dim, inner.fun_shape, inner.funvec_dim, has_vec=inner.has_vec, has_inv=False)
-        obj = MappedGeometry(inner.obj, map=lambda x, a=a, b=b: a * x + b, imap=lambda y, a=a, b=b: (y - b) / a)
-        return G(obj, f"map:{q(a)}:{q(b)}:aff:" + inner.spec, kind, inner.par_dim, inner.fun_shape, inner.funvec_dim, has_vec=inner.has_vec)
+            obj = MappedGeometry(inner.obj, map=f64(lambda x, a=a, b=b: a * x + b))
+            return G(obj, f"map:{q(a)}:{q(b)}:affnoinv:" + inner.spec, kind, inner.par_dim, inner.fun_shape, inner.funvec_dim, exact=inner.exact, has_vec=inner.has_vec, has_inv=False)
+        obj = MappedGeometry(inner.obj, map=f64(lambda x, a=a, b=b: a * x + b), imap=f64(lambda y, a=a, b=b: (y - b) / a))
+        return G(obj, f"map:{q(a)}:{q(b)}:aff:" + inner.spec, kind, inner.par_dim, inner.fun_shape, inner.funvec_dim, exact=inner.exact, has_vec=inner.has_vec)
     raise ValueError(kind)
+
+
+# ----------------------------------------------------------------------------- dtypes of the stored chain (G1)
+DTYPE_OF = {}     # id(number array) -> numpy dtype name the implementation's chain is stored with
+DT_HIST = {}
+
+
+def choose_dtype(rng, arr, floats_only=False):
+    """the numbers stay what they are (float64 array given to the model and the oracle); the implementation stores them
+    as float64 / int64 / int32 / float32 / bool (bool: the numbers become 0/1 first)"""
+    arr = np.array(arr, dtype=float)
+    integral = bool(np.all(arr == np.round(arr)))
+    if floats_only or not integral:
+        dt = rng.choice(["float64", "float64", "float32"]) if bool(np.all(arr.astype(np.float32).astype(float) == arr)) else "float64"
+    else:
+        dt = rng.choice(["float64"] * 5 + ["int64", "int64", "int32", "float32", "float32", "bool"])
+    if dt == "bool":
+        arr = (arr > 0).astype(float)
+    DTYPE_OF[id(arr)] = dt
+    DT_HIST[dt] = DT_HIST.get(dt, 0) + 1
+    return arr
+
+
+def dt_of(arr):
+    return DTYPE_OF.get(id(arr), "float64")
+
+
+def impl_arr(arr):
+    """a fresh array with the same numbers in the chosen storage dtype"""
+    return np.array(arr, dtype=float).astype(dt_of(arr))
 
 
 # ----------------------------------------------------------------------------- canonical states
@@ -186,7 +224,7 @@ def split_state(s):
     return parts[0], parts[1], parts[2], parts[3], parts[4]
 
 
-def states_equal(a, b, exact=True):
+def states_equal(a, b, exact=True, tol=1e-12):
     if a == b:
         return True
     if a.count("~") != 4 or b.count("~") != 4:
@@ -197,7 +235,7 @@ def states_equal(a, b, exact=True):
     if exact:
         return False
     ma, mb = pm(sa[4]), pm(sb[4])
-    return len(ma) == len(mb) and all(len(x) == len(y) and all(close(u, v, 1e-12) for u, v in zip(x, y)) for x, y in zip(ma, mb))
+    return len(ma) == len(mb) and all(len(x) == len(y) and all(close(u, v, tol) for u, v in zip(x, y)) for x, y in zip(ma, mb))
 
 
 def snapshot(S):
@@ -317,6 +355,8 @@ def oracle_stats(ctx, key, desc, arr, p, res):
     """per-coordinate statistics over the sample axis, chain by chain, in exact arithmetic"""
     ok = True
     mean, med, var, std, ci, width = res
+    f32 = any(np.asarray(v).dtype == np.float32 for v in (mean, med, var, std))   # numpy reduces a float32 chain in float32
+    tm, tv = (2e-6, 2e-5) if f32 else (1e-13, 1e-11)
     shape = arr.shape[:-1]
     N = arr.shape[-1]
     pf = Fraction(float(p))
@@ -332,8 +372,8 @@ def oracle_stats(ctx, key, desc, arr, p, res):
         vv = sum((x - m) ** 2 for x in ch) / N
         s = sorted(ch)
         md = s[N // 2] if N % 2 else (s[N // 2 - 1] + s[N // 2]) / 2
-        for name, got, want, tol in (("mean", mean[idx], m, 1e-13), ("median", med[idx], md, 1e-13), ("variance", var[idx], vv, 1e-11),
-                                     ("std", float(std[idx]) ** 2, vv, 1e-11)):
+        for name, got, want, tol in (("mean", mean[idx], m, tm), ("median", med[idx], md, tm), ("variance", var[idx], vv, tv),
+                                     ("std", float(std[idx]) ** 2, vv, tv)):
             if not close(float(got), float(want), tol):
                 ok = False
                 ctx.fail(key + f":{name}", {**desc, "coordinate": list(idx)}, float(want), float(got),
@@ -342,10 +382,10 @@ def oracle_stats(ctx, key, desc, arr, p, res):
         if ci is not None and 0 <= pf <= 100:
             lo, hi = float(ci[0][idx]), float(ci[1][idx])
             wl, wh = frac_percentile(arr[idx], lbq), frac_percentile(arr[idx], ubq)
-            if not (close(lo, float(wl), 1e-11) and close(hi, float(wh), 1e-11)):
+            if not (close(lo, float(wl), tv) and close(hi, float(wh), tv)):
                 ok = False
                 ctx.fail(key + ":ci", {**desc, "coordinate": list(idx)}, [float(wl), float(wh)], [lo, hi], "credible-interval bounds are not the percentiles of the chain")
-            if not (lo <= float(med[idx]) + 1e-12 * (1 + abs(lo)) and float(med[idx]) <= hi + 1e-12 * (1 + abs(hi))):
+            if not (lo <= float(med[idx]) + 10 * tm * (1 + abs(lo)) and float(med[idx]) <= hi + 10 * tm * (1 + abs(hi))):
                 ok = False
                 ctx.fail(key + ":ci-order", {**desc, "coordinate": list(idx)}, "lower <= median <= upper", [lo, float(med[idx]), hi], "interval does not bracket the median")
             if width is not None and float(width[idx]) != hi - lo:
@@ -441,7 +481,7 @@ def reread_after(ctx, S, answers, key, desc):
     return ok
 
 
-def derived_checks(ctx, R, g, derived, key, desc, model_states, exact):
+def derived_checks(ctx, R, g, derived, key, desc, model_states, exact, tol=1e-12):
     """reads derived from a returned object R must be the property's value for R's stored samples (converted per sample /
     per-coordinate statistics), whatever was read from the source before; conversions are also compared with the model"""
     ok = True
@@ -450,8 +490,8 @@ def derived_checks(ctx, R, g, derived, key, desc, model_states, exact):
         nf = len(ctx.failures)
         if d == "stats":
             arr = R.samples
-            if not isinstance(arr, np.ndarray) or arr.shape[-1] == 0 or arr.size > 120 or not np.all(np.isfinite(arr)):
-                continue
+            if not isinstance(arr, np.ndarray) or arr.shape[-1] == 0 or arr.size > 120 or not np.all(np.isfinite(arr)) or arr.dtype == bool:
+                continue   # (np.percentile refuses boolean arrays: a refusal of numpy, not a wrong value)
             p = 95
             try:
                 with quiet():
@@ -479,7 +519,7 @@ def derived_checks(ctx, R, g, derived, key, desc, model_states, exact):
                 ok = False
                 ctx.fail(f"{key}:then-{d}:source", ddesc, "unchanged", "changed", "a read changed the returned object")
         m = model_states.get(j)
-        if m is not None and st != "nonfinite" and not states_equal(m, st, exact=exact):
+        if m is not None and st != "nonfinite" and not states_equal(m, st, exact=exact, tol=tol):
             ctx.disagree(fkey(ctx, nf, f"{key}:then-{d}"), ddesc, m[:300], st[:300], "derived read differs between model and implementation")
     return ok
 
@@ -487,7 +527,10 @@ def derived_checks(ctx, R, g, derived, key, desc, model_states, exact):
 # ----------------------------------------------------------------------------- running the implementation
 def apply_op(S, op):
     if op[0] == "bt":
-        return S.burnthin(op[1], op[2])
+        b, t = op[1], op[2]
+        if (b + t) % 3 == 0:      # numpy integer scalars are accepted wherever python ints are
+            b, t = np.int64(b), np.int32(t)
+        return S.burnthin(b, t)
     if op[0] == "fv":
         return S.funvals
     if op[0] == "vec":
@@ -511,7 +554,7 @@ def initial_array(rng, g, rep, N, dyadic=False):
     arr = np.array(vals, dtype=float).reshape(shape + (N,))
     if dyadic:
         arr = arr / 4.0
-    return arr
+    return choose_dtype(rng, arr)
 
 
 def gen_bt(rng, N, malformed=False):
@@ -581,7 +624,7 @@ def run(ctx):
         else:
             g = G(Continuous1D(d), f"c1d:{d}", "cont1d", d, shape, d)   # a raw 4-D array with a mismatching geometry
             rep = "raw"
-        arr = np.array([rng.randint(-9, 9) for _ in range(d * N)], dtype=float).reshape(shape + (N,))
+        arr = choose_dtype(rng, np.array([rng.randint(-9, 9) for _ in range(d * N)], dtype=float).reshape(shape + (N,)))
         plan = gen_plan(rng, 1, 0.3, 0.3)
         if rep == "raw":   # a raw 4-D array under a mismatching geometry: only burnthin and statistics are meaningful
             plan["derived"] = {k: ["stats" for _ in v] for k, v in plan["derived"].items()}
@@ -641,11 +684,11 @@ def run(ctx):
         ip, iv = {"par": (True, True), "vec": (False, True), "fun": (False, arr.ndim <= 2), "raw": (False, False)}[rep]
         desc = {"geometry": g.spec, "rep": rep, "shape": list(arr.shape), "ops": [op_str(o) for o in ops],
                 "samples": arr.tolist() if arr.size <= 60 else "array of %d" % arr.size,
-                "side_reads_before_op": {str(k): v for k, v in plan["reads"].items()}}
+                "side_reads_before_op": {str(k): v for k, v in plan["reads"].items()}, "dtype": dt_of(arr)}
         ctx.case(kind, {k: desc[k] for k in ("geometry", "rep", "shape", "ops")} | {"h": hash(arr.tobytes()) % 10 ** 6}, nontrivial=(arr.shape[-1] >= 2))
         mstates = out.split(" | ") if out else []
         with quiet():
-            S = Samples(arr.copy(), geometry=g.obj, is_par=ip, is_vec=iv)
+            S = Samples(impl_arr(arr), geometry=g.obj, is_par=ip, is_vec=iv)
         istates = []
         cur = S
         for k, op in enumerate(ops):
@@ -684,7 +727,8 @@ def run(ctx):
                 nonfinite[0] += 1
                 istates[-1] = "err:nonfinite"
                 break
-            if not states_equal(m, st, exact=g.exact):
+            stol = 2e-6 if dt_of(arr) == "float32" else 1e-12   # a float32 chain is reduced by numpy (group means) in float32
+            if not states_equal(m, st, exact=g.exact, tol=stol):
                 if ok:
                     # near-by search: same call on fresh copies with the neighbouring burn-in / thinning values
                     if op[0] == "bt" and isinstance(op[1], int) and op[1] >= 0 and op[2] >= 1:
@@ -716,7 +760,7 @@ def run(ctx):
                     if (ci, k, j) in dline:
                         parts = all_outs[dline[(ci, k, j)]].split(" | ")
                         mst[j] = parts[k + 1] if len(parts) == k + 2 else None
-                derived_checks(ctx, R, g, ds, key, sdesc, mst, g.exact)
+                derived_checks(ctx, R, g, ds, key, sdesc, mst, g.exact, tol=2e-6 if dt_of(arr) == "float32" else 1e-12)
                 branch_derived += len(ds)
             cur = R
             if isinstance(R.samples, np.ndarray) and R.samples.shape[-1] == 0:
@@ -736,9 +780,11 @@ def run(ctx):
 
     # ------------------------------------------------------------------ 4. statistics (raw arrays and final states of the sequences)
     stat_cases = []
+    SCALE_OF = {}
+    extras = {"bool_ci_refusals": 0, "scaled": 0, "inplace_updates": 0, "alias_checks": 0}
     for shape, N in [((1,), 1), ((2,), 2), ((3,), 5), ((2,), 8), ((2, 2), 7), ((2, 3), 4), ((4,), 16), ((2,), 41)]:
         for p in LEVELS:
-            arr = np.array([rng.randint(-20, 20) for _ in range(int(np.prod(shape)) * N)], dtype=float).reshape(shape + (N,))
+            arr = choose_dtype(rng, np.array([rng.randint(-20, 20) for _ in range(int(np.prod(shape)) * N)], dtype=float).reshape(shape + (N,)))
             stat_cases.append((arr, p, "stat-grid", None))
     for _ in range(400 * K):
         shape = rng.choice([(1,), (2,), (3,), (5,), (2, 2), (3, 2), (2, 1, 2)])
@@ -748,6 +794,9 @@ def run(ctx):
             arr = arr / 8.0
         if rng.random() < 0.2:   # many ties
             arr = np.sign(arr)
+        arr = choose_dtype(rng, arr)
+        if dt_of(arr) == "float64" and rng.random() < 0.2:   # G4: extreme scales (powers of two keep every operation exact)
+            SCALE_OF[id(arr)] = 2.0 ** rng.choice([-40, 40, -20, 30])
         r = rng.random()
         p = rng.choice(LEVELS) if r < 0.5 else (rng.randint(0, 800) / 8.0 if r < 0.85 else rng.choice([-10, -0.5, 100.5, 150, 250, -100, -101]))
         stat_cases.append((arr, p, "stat-random", None))
@@ -764,43 +813,86 @@ def run(ctx):
             lines.append(f"stat {sh} {cols} {q(p)}")
     outs = ctx.lean.drive(lines)
     for (arr, p, kind, extra), out in zip(stat_cases, outs):
-        desc = {"shape": list(arr.shape), "percent": p, "samples": arr.tolist() if arr.size <= 60 else "array of %d" % arr.size}
+        scale = SCALE_OF.get(id(arr), 1.0)
+        desc = {"shape": list(arr.shape), "percent": p, "samples": arr.tolist() if arr.size <= 60 else "array of %d" % arr.size,
+                "dtype": dt_of(arr) if extra is None else str(arr.dtype), "scale": scale}
         if extra is not None:
             desc["after"] = {k: extra[3][k] for k in ("geometry", "rep", "ops")}
-        ctx.case(kind, {"shape": desc["shape"], "percent": p, "h": hash(arr.tobytes()) % 10 ** 6})
+        ctx.case(kind, {"shape": desc["shape"], "percent": p, "dtype": desc["dtype"], "scale": scale, "h": hash(arr.tobytes()) % 10 ** 6})
+        is_bool = (extra is None and dt_of(arr) == "bool") or (extra is not None and arr.dtype == bool)
+
+        def all_stats(S):
+            with quiet():
+                r = [S.mean(), S.median(), S.variance(), S.std()]
+                try:
+                    r += [S.compute_ci(p), S.ci_width(p), None]
+                except Exception as e:
+                    r += [None, None, type(e).__name__]
+            return r
+
+        def unscale(r):   # results for the unscaled numbers (exact: the scale is a power of two)
+            if scale == 1.0:
+                return r
+            return [r[0] / scale, r[1] / scale, r[2] / scale ** 2, r[3] / scale, None if r[4] is None else r[4] / scale, None if r[5] is None else r[5] / scale, r[6]]
+
         with quiet():
-            S = extra[1] if extra is not None else Samples(arr.copy())
-            snap = snapshot(S)
-            mean, med, var, std = S.mean(), S.median(), S.variance(), S.std()
-            try:
-                ci = S.compute_ci(p); width = S.ci_width(p); ci_err = None
-            except Exception as e:
-                ci = width = None; ci_err = type(e).__name__
+            S = extra[1] if extra is not None else Samples(impl_arr(arr) * scale if scale != 1.0 else impl_arr(arr))
+        snap = snapshot(S)
+        raw = all_stats(S)
+        mean, med, var, std, ci, width, ci_err = unscale([v if not isinstance(v, np.ndarray) else np.array(v, copy=True) for v in raw])
+        extras["scaled"] += int(scale != 1.0)
         key = f"stats:{'nd' if arr.ndim > 2 else '2d'}" + (":after-" + extra[0].kind if extra is not None else "")
         nf = len(ctx.failures)
-        ok = oracle_stats(ctx, key, desc, arr, p, (mean, med, var, std, ci, width))
+        numbers = np.array(arr, dtype=float)
+        ok = oracle_stats(ctx, key, desc, numbers, p, (mean, med, var, std, ci, width))
+        # G2: the stored chain is byte-identical and in the same order after every statistic
         if not untouched(S, snap):
             ok = False
             ctx.fail(key + ":source", desc, "unchanged", "changed", "computing statistics modified the samples")
-        if 0 <= p <= 100 and ci_err is not None:
+        if is_bool and ci_err == "TypeError":
+            extras["bool_ci_refusals"] += 1     # np.percentile refuses boolean arrays (numpy, not cuqi): a refusal, not a wrong value
+        elif 0 <= p <= 100 and ci_err is not None:
             ok = False
             ctx.fail(key + ":ci-refused", desc, "bounds", ci_err, "compute_ci refuses a credibility level in [0,100]")
+        # G3: the returned arrays are the caller's — overwriting them must not change later answers
+        if ok:
+            keep = [None if v is None else np.array(v, copy=True) for v in raw[:6]]
+            for v in raw[:6]:
+                if isinstance(v, np.ndarray) and v.flags.writeable and v.ndim > 0:
+                    v[...] = 77
+            again = all_stats(S)
+            extras["alias_checks"] += 1
+            if not all(same_answer(a, b) for a, b in zip(keep, again[:6]) if a is not None) or not untouched(S, snap):
+                ok = False
+                ctx.fail(key + ":alias", desc, "same statistics after the caller overwrote the returned arrays", "different", "a returned statistic aliases internal state")
+        # G5: an in-place update of the SAME stored array must be reflected by the next call (no stale memo)
+        if ok and extra is None and arr.shape[-1] >= 2 and scale == 1.0:
+            S.samples[..., 0] = S.samples[..., -1]
+            upd = np.array(S.samples, dtype=float)
+            r2 = all_stats(S)
+            extras["inplace_updates"] += 1
+            if not oracle_stats(ctx, key + ":after-inplace-update", {**desc, "samples": upd.tolist() if upd.size <= 60 else "array"}, upd, p, tuple(r2[:6])):
+                ok = False
         toks = out.split(" ")
         bad = None
         if len(toks) < 4:
             bad = "model output"
         else:
             exact = (extra is None) or extra[0].exact
+            f32 = any(np.asarray(v).dtype == np.float32 for v in raw[:4]) or (extra is not None and extra[3].get("dtype") == "float32" and not extra[0].exact)
+            t1, t2 = (2e-6, 2e-5) if f32 else ((1e-13 if exact else 1e-11), 1e-11)
             mm, mv, mmd = pv(toks[0]), pv(toks[1]), pv(toks[2])
             fl = lambda a: [float(x) for x in np.asarray(a).reshape(-1)]
-            if not all(close(a, float(b), 1e-13 if exact else 1e-11) for a, b in zip(fl(mean), mm)) or len(mm) != len(fl(mean)):
+            if not all(close(a, float(b), t1) for a, b in zip(fl(mean), mm)) or len(mm) != len(fl(mean)):
                 bad = "mean"
-            elif not all(close(a, float(b), 1e-13 if exact else 1e-11) for a, b in zip(fl(med), mmd)):
+            elif not all(close(a, float(b), t1) for a, b in zip(fl(med), mmd)):
                 bad = "median"
-            elif not all(close(a, float(b), 1e-11) for a, b in zip(fl(var), mv)):
+            elif not all(close(a, float(b), t2) for a, b in zip(fl(var), mv)):
                 bad = "variance"
-            elif not all(close(a * a, float(b), 1e-11) for a, b in zip(fl(std), mv)):
+            elif not all(close(a * a, float(b), t2) for a, b in zip(fl(std), mv)):
                 bad = "std"
+            elif is_bool and ci_err == "TypeError":
+                pass
             elif toks[3].startswith("err"):
                 if ci_err is None:
                     bad = "ci-refusal"
@@ -817,6 +909,8 @@ def run(ctx):
             if ok and bad in ("mean", "median", "variance", "std", "ci", "ci-width"):
                 ctx.note(f"statistics correspondence broke on {bad} but the oracle accepts the implementation at {desc['shape']}: model defect?")
 
+    ctx.extra_cov["statistics_generic_classes"] = extras
+    ctx.extra_cov["chain_dtypes"] = dict(DT_HIST)
     # percentile level sweep on one chain (all levels k/4, k = 0..400)
     chain = [rng.randint(-30, 30) for _ in range(rng.choice([6, 9, 14]))]
     qs = [k / 4.0 for k in range(0, 401, 1 if thorough else 4)]
@@ -867,18 +961,19 @@ def run(ctx):
             idx = None
             if rng.random() < 0.25:
                 dd = arr.shape[0]
-                idx = [rng.randrange(dd) for _ in range(rng.randint(1, 3))]
+                idx = [rng.randrange(dd) for _ in range(rng.randint(0 if rng.random() < 0.2 else 1, 3))]   # [] is falsy but is not None (G6)
             ecases.append((g, rep, arr, idx))
-        lines = [f"ess {g.spec} {arr.shape[0]} {int(rep == 'par')} 1 {qm(cols_of(arr))} {'all' if idx is None else ','.join(map(str, idx))}"
+        lines = [f"ess {g.spec} {arr.shape[0]} {int(rep == 'par')} 1 {qm(cols_of(arr))} {'all' if idx is None else (','.join(map(str, idx)) or '_')}"
                  for g, rep, arr, idx in ecases]
         outs = ctx.lean.drive(lines)
         for (g, rep, arr, idx), out in zip(ecases, outs):
-            desc = {"geometry": g.spec, "rep": rep, "shape": list(arr.shape), "variable_indices": idx, "samples": arr.tolist()}
+            desc = {"geometry": g.spec, "rep": rep, "shape": list(arr.shape), "variable_indices": idx, "samples": arr.tolist(), "dtype": dt_of(arr)}
             ctx.case("ess", {"geometry": g.spec, "rep": rep, "idx": idx, "h": hash(arr.tobytes()) % 10 ** 6})
             klass = "dup-names" if g.kind == "dupnames" else ("funvec-ne-par" if (rep == "vec" and g.funvec_dim != g.par_dim) else "plain")
             key = f"ess:{klass}:{g.kind}" + (":indices" if idx is not None else "")
             with quiet():
-                S = Samples(arr.copy(), geometry=g.obj, is_par=(rep == "par"), is_vec=True)
+                S = Samples(impl_arr(arr), geometry=g.obj, is_par=(rep == "par"), is_vec=True)
+            snapS = snapshot(S)
             rec.clear()
             try:
                 with quiet():
@@ -892,6 +987,23 @@ def run(ctx):
             # oracle: every requested variable's own chain arrives, in order; ESS[i] is that of chain i
             ok = True
             nf = len(ctx.failures)
+            if dd is not None:      # G2/G3: the stored chain is untouched, also after the caller overwrites what was returned
+                for v in dd.values():
+                    if isinstance(v, np.ndarray) and v.flags.writeable:
+                        v_keep = v.copy(); v[...] = 0; v[...] = v_keep
+                        if not untouched(S, snapS):
+                            v[...] = 1
+                if res is not None and isinstance(res, np.ndarray):
+                    res_keep = res.copy(); res[...] = -5
+                    with quiet():
+                        res2 = S.compute_ess()
+                    if not same_answer(res_keep, res2):
+                        ok = False
+                        ctx.fail(key + ":alias", desc, "same ESS after the caller overwrote the returned array", "different", "the returned ESS array aliases internal state")
+                    res = res_keep
+            if not untouched(S, snapS):
+                ok = False
+                ctx.fail(key + ":source", desc, "stored chain byte-identical after the diagnostic", "changed", "compute_ess / to_arviz_inferencedata modified the stored chain (or hands out a view of it)")
             want_rows = list(range(arr.shape[0])) if idx is None else idx
             if dd is not None:
                 vals = list(dd.values())
@@ -901,7 +1013,7 @@ def run(ctx):
                     ctx.fail(key + ":chains", desc, f"{len(want_rows)} chains = rows {want_rows} in order", f"{len(vals)} chains", "the dictionary handed to arviz is not each variable's own chain in order")
                 if res is not None:
                     want = [leaf(real_arviz.ess, arr[r]) for r in want_rows]
-                    if len(res) != len(want) or not np.array_equal(np.asarray(res), np.asarray(want), equal_nan=True):
+                    if len(res) != len(want) or not np.allclose(np.asarray(res), np.asarray(want), rtol=1e-6 if dt_of(arr) != "float64" else 0, atol=0, equal_nan=True):
                         ok = False
                         ctx.fail(key + ":values", desc, want, np.asarray(res).tolist(), "compute_ess()[i] is not the ESS of variable i's chain")
             if impl != out:
@@ -931,22 +1043,53 @@ def run(ctx):
                 toks += [g.spec, str(a.shape[0]), str(int(rep == "par")), "1", qm(cols_of(a))]
             lines.append(" ".join(toks))
         outs = ctx.lean.drive(lines)
+        rhat_i = 0
+        rhat_hist = {}
         for (kd, gs, rep, arrs), out in zip(rcases, outs):
             g = gs[0]
-            desc = {"geometry": [x.spec for x in gs], "rep": rep, "shape": list(arrs[0].shape), "chains": [a.tolist() for a in arrs]}
+            how = ["list", "list", "list", "single", "tuple", "list", "generator"][(rhat_i + rhat_i // 10) % 7]   # decorrelated from the geometry cycle
+            if how == "single" and len(arrs) > 2:
+                how = "list"
+            rhat_i += 1
+            desc = {"geometry": [x.spec for x in gs], "rep": rep, "shape": list(arrs[0].shape), "chains": [a.tolist() for a in arrs],
+                    "dtype": [dt_of(a) for a in arrs], "chains_passed_as": how}
             ctx.case("rhat", {"geometry": desc["geometry"], "rep": rep, "h": hash(arrs[0].tobytes()) % 10 ** 6})
             klass = "dup-names" if g.kind == "dupnames" else ("funvec-ne-par" if (rep == "vec" and g.funvec_dim != g.par_dim) else "plain")
             key = f"rhat:{klass}:{kd}"
             with quiet():
-                Ss = [Samples(a.copy(), geometry=x.obj, is_par=(rep == "par"), is_vec=True) for x, a in zip(gs, arrs)]
+                Ss = [Samples(impl_arr(a), geometry=x.obj, is_par=(rep == "par"), is_vec=True) for x, a in zip(gs, arrs)]
+            snaps = [snapshot(x) for x in Ss]
+            lst = list(Ss[1:])                      # the caller's own list object
+            lst_before = (len(lst), [id(x) for x in lst])
+            arg = {"list": lst, "single": Ss[1], "tuple": tuple(lst), "generator": (x for x in lst)}[how]
+            rhat_hist[how] = rhat_hist.get(how, 0) + 1
             rec.clear()
+            pre_fail = []
             try:
                 with quiet():
-                    res = Ss[0].compute_rhat(Ss[1:] if len(Ss) > 2 or rng.random() < 0.5 else Ss[1])
+                    res = Ss[0].compute_rhat(arg)
                 dd = rec[-1][1]
                 impl = ";".join(k + "=" + "/".join(qv(r) for r in v) for k, v in dd.items()) or "_"
             except Exception as e:
                 impl, res, dd = "err:" + type(e).__name__, None, None
+            refused_container = how in ("tuple", "generator") and impl == "err:TypeError"   # the code accepts lists only: a refusal
+            # G2: the caller's list is the caller's — same length, same elements, same order, after the call
+            if (len(lst), [id(x) for x in lst]) != lst_before:
+                pre_fail.append(("caller-list", "list of chains unchanged (length and identity of its elements)", f"length {lst_before[0]} -> {len(lst)}",
+                                 "compute_rhat modified the list of chains passed by the caller"))
+            # the same list object used again (second call on the same object, and by a twin of it): each chain exactly once, [self, *chains]
+            second = []
+            if how == "list" and dd is not None:
+                with quiet():
+                    twin = Samples(impl_arr(arrs[0]), geometry=gs[0].obj, is_par=(rep == "par"), is_vec=True)
+                for who in (Ss[0], twin):
+                    rec.clear()
+                    try:
+                        with quiet():
+                            r2 = who.compute_rhat(lst)
+                        second.append((rec[-1][1], r2))
+                    except Exception as e:
+                        second.append((None, type(e).__name__))
             ok = True
             nf = len(ctx.failures)
             mpos = None
@@ -955,21 +1098,47 @@ def run(ctx):
                 mpos = mpos.split(",")
             else:
                 mdict = out
+            for suffix, demanded, got, what in pre_fail:
+                ok = False
+                ctx.fail(key + ":" + suffix, desc, demanded, got, what)
+            for x, sn in zip(Ss, snaps):
+                if not untouched(x, sn):
+                    ok = False
+                    ctx.fail(key + ":source", desc, "stored chains byte-identical after the diagnostic", "changed", "compute_rhat modified a stored chain")
+                    break
+            klass_ok = klass == "plain"
+            for d2, r2 in second:
+                if d2 is None:
+                    ok = False
+                    ctx.fail(key + ":reuse", desc, "second call with the same list succeeds", r2, "compute_rhat fails when the caller's list is used again")
+                elif klass_ok:
+                    v2 = list(d2.values())
+                    if len(v2) != arrs[0].shape[0] or not all(v2[k].shape == (len(arrs), arrs[0].shape[1]) and np.array_equal(v2[k], np.stack([a[k] for a in arrs])) for k in range(len(v2))):
+                        ok = False
+                        ctx.fail(key + ":reuse", desc, f"each chain exactly once, in order [self, *chains] ({len(arrs)} chains)", [list(x.shape) for x in v2][:3],
+                                 "re-using the caller's list of chains hands arviz duplicated / extra chains")
+                    elif not same_answer(np.asarray(r2), np.asarray(res)):
+                        ok = False
+                        ctx.fail(key + ":reuse", desc, "same R-hat as the first call", np.asarray(r2).tolist(), "a second compute_rhat with the same list gives a different answer")
             if dd is not None:
                 d = arrs[0].shape[0]
                 vals = list(dd.values())
-                if len(vals) != d or not all(np.array_equal(vals[k], np.stack([a[k] for a in arrs])) for k in range(d)):
+                if len(vals) != d or not all(vals[k].shape == (len(arrs), arrs[0].shape[1]) and np.array_equal(vals[k], np.stack([a[k] for a in arrs])) for k in range(d)):
                     ok = False
                     ctx.fail(key + ":chains", desc, f"{d} variables, each with its own chain from every Samples object", f"{len(vals)} variables",
                              "the dictionary handed to arviz.rhat is not each variable's own chains in order")
                 want = [leaf(real_arviz.rhat, np.stack([a[k] for a in arrs])) for k in range(d)]
                 # entries the code never writes hold arbitrary memory: compare only what the model says is written
                 written = [k for k in range(len(res))] if mpos is None else [k for k, pz in enumerate(mpos) if pz != "x"]
-                if len(res) != d or not all(np.array_equal(res[k], want[k], equal_nan=True) for k in range(d) if k in written and ok) or len(written) != d:
+                rt = 0 if all(dt_of(a) == "float64" for a in arrs) else 1e-6
+                if len(res) != d or not all(np.allclose(res[k], want[k], rtol=rt, atol=0, equal_nan=True) for k in range(d) if k in written and ok) or len(written) != d:
                     ok = False
                     ctx.fail(key + ":values", desc, want, np.asarray(res).tolist(), "compute_rhat()[i] is not the R-hat of variable i's chains (entries missing, shifted or never written)")
-            if impl != mdict:
+            if refused_container:
+                rhat_hist["refused:" + how] = rhat_hist.get("refused:" + how, 0) + 1
+            elif impl != mdict:
                 ctx.disagree(fkey(ctx, nf, key), desc, out[:300], impl[:300], "dictionary handed to arviz.rhat differs")
+        ctx.extra_cov["rhat_chains_argument_forms"] = rhat_hist
     finally:
         smod.arviz = real_arviz
     joint_part(ctx, cuqi, rng, K)
@@ -1011,10 +1180,10 @@ def joint_part(ctx, cuqi, rng, K):
     outs = all_outs[:njoint]
     for ci, ((members, op, jreads, jder), out) in enumerate(zip(jcases, outs)):
         desc = {"members": [(k, g.spec, list(a.shape)) for k, g, a in members], "op": op_str(op), "samples": {k: a.tolist() for k, g, a in members},
-                "side_reads_before_op": jreads}
+                "side_reads_before_op": jreads, "dtype": {k: dt_of(a) for k, g, a in members}}
         ctx.case("joint", {"members": desc["members"], "op": desc["op"], "h": hash(b"".join(a.tobytes() for _, _, a in members)) % 10 ** 6}, nontrivial=len(members) >= 2)
         with quiet():
-            J = JointSamples({k: Samples(a.copy(), geometry=g.obj) for k, g, a in members})
+            J = JointSamples({k: Samples(impl_arr(a), geometry=g.obj) for k, g, a in members})
         nf0 = len(ctx.failures)
         answers = {k: side_reads_before(ctx, J[k], jreads[k], "joint:burnthin:member", {**desc, "member": k}) for k, _, _ in members if k in jreads}
         snaps = {k: snapshot(J[k]) for k in J}
@@ -1120,7 +1289,7 @@ def replay(ctx, rep):
             rep_ = case["rep"]
             ip, iv = {"par": (True, True), "vec": (False, True), "fun": (False, arr.ndim <= 2), "raw": (False, False)}[rep_]
             with quiet():
-                cur = Samples(arr.copy(), geometry=g.obj, is_par=ip, is_vec=iv)
+                cur = Samples(arr.astype(case.get("dtype", "float64")), geometry=g.obj, is_par=ip, is_vec=iv)
             for k, o in enumerate(case["ops"]):
                 op = parse_op(o)
                 if "op" in case and k == case.get("step"):
@@ -1151,10 +1320,11 @@ def replay(ctx, rep):
             arr = np.array(case["samples"], dtype=float)
             p = case["percent"]
             with quiet():
-                S = Samples(arr.copy())
-                mean, med, var, std = S.mean(), S.median(), S.variance(), S.std()
+                S = Samples(arr.astype(case.get("dtype", "float64")) * case.get("scale", 1.0) if case.get("scale", 1.0) != 1.0 else arr.astype(case.get("dtype", "float64")))
+                sc = case.get("scale", 1.0)
+                mean, med, var, std = S.mean() / sc, S.median() / sc, S.variance() / sc ** 2, S.std() / sc
                 try:
-                    ci, width = S.compute_ci(p), S.ci_width(p)
+                    ci, width = S.compute_ci(p) / sc, S.ci_width(p) / sc
                 except Exception:
                     ci = width = None
             oracle_stats(ctx, ":".join(key.split(":")[:2]), case, arr, p, (mean, med, var, std, ci, width))
@@ -1163,7 +1333,7 @@ def replay(ctx, rep):
             op = parse_op(case["op"])
             mem = [(k, geom_from_spec(spec), np.array(case["samples"][k], dtype=float)) for k, spec, _ in case["members"]]
             with quiet():
-                J = JointSamples({k: Samples(a.copy(), geometry=g.obj) for k, g, a in mem})
+                J = JointSamples({k: Samples(a.astype(case.get("dtype", {}).get(k, "float64")), geometry=g.obj) for k, g, a in mem})
             answers = {k: [(r, do_read(J[k], r)) for r in rs] for k, rs in case.get("side_reads_before_op", {}).items() if k in J}
             try:
                 with quiet():
